@@ -111,16 +111,16 @@ Theorem power_on_ruv_refuted :
   eval (r 1) std_fi (Mul (Fn2 F_POW (Sym pF) (Sym pTH)) (Fn1 F_EXP (Sym pETA))) = Some (8 # 1).
 Proof. repeat split; vm_compute; reflexivity. Qed.
 
-(* guard g_surgery (finding C09-COV-NESTED-SAME-SYMBOL): a second effect of the same covariate on the same
-   parameter reuses the effect symbol; the grouping heuristic then merges  CL = CL*CLWGT  into
-   CL = CL*CLWGT*CLWGT  AFTER CLWGT has been redefined: the first effect is lost, the new one squared.
-   Model (faithful to the code) vs spec at T = 2, ETA = 0, WGT = median + 1, theta = 3, theta1 = 5, theta2 = 7:
-   first effect 1 + 3 = 4, second effect 1 + 7 = 8;  spec 2*4*8 = 64, code 2*8*8 = 128. *)
-Definition xT1 : id := 213%positive. Definition xT2 : id := 214%positive.
+(* REGRESSION (finding C09-COV-NESTED-SAME-SYMBOL, fixed by 73c85ed): a second effect of the same covariate on the
+   same parameter reuses the effect symbol.  Formerly the grouping heuristic merged  CL = CL*CLWGT  into
+   CL = CL*CLWGT*CLWGT  after CLWGT had been redefined (code 2*8*8 = 128 instead of 2*4*8 = 64 at T = 2, ETA = 0,
+   WGT = median + 1, theta = 3, theta1 = 5, theta2 = 7).  Now nothing is grouped when the effect symbol is already
+   assigned; the guard of add_covariate_effect_sound holds on this program and model = spec = 64. *)
+Definition xT1 : id := 213%positive. Definition xT2 : id := 214%positive. Definition xWGTMED1 : id := 215%positive.
 Definition nested_prog : list stmt :=
-  [Assign xWGTMED (Num (13 # 10));
+  [Assign xWGTMED1 (Num (13 # 10));
    Assign xTVCL (Sym xT); Assign xCL (Mul (Sym xTVCL) (Fn1 F_EXP (Sym xETA)));
-   Assign xCLWGT (Add (Num 1) (Mul (Sym xTH) (Add (Sym xWGT) (Neg (Sym xWGTMED)))));
+   Assign xCLWGT (Add (Num 1) (Mul (Sym xTH) (Add (Sym xWGT) (Neg (Sym xWGTMED1)))));
    Assign xCL (Mul (Sym xCL) (Sym xCLWGT));
    Assign xV (Sym xCL)].
 Definition nested_args : cov_args :=
@@ -130,10 +130,36 @@ Definition nested_args : cov_args :=
      a_cov_possible := [xCL; xCLWGT] |}.
 Definition nested_env : list (id * Q) :=
   [(xT, 2); (xETA, 0); (xWGT, 23 # 10); (xTH, 3); (xT1, 5); (xT2, 7)].
-Theorem cov_nested_same_symbol_refuted :
-  g_surgery doc_templates nested_args nested_prog = false /\
+Example cov_nested_same_symbol_fixed :
+  g_surgery doc_templates nested_args nested_prog = true /\
   match add_covariate_effect doc_templates nested_args nested_prog, spec_covariate_effect nested_args nested_prog with
-  | Some lm, Some ls => run nested_env lm xV = Some (128 # 1) /\ run nested_env ls xV = Some (64 # 1)
+  | Some lm, Some ls => run nested_env lm xV = Some (64 # 1) /\ run nested_env ls xV = Some (64 # 1) /\ length lm = 9%nat
   | _, _ => False
   end.
-Proof. split; [vm_compute; reflexivity|]. vm_compute. split; reflexivity. Qed.
+Proof. split; [vm_compute; reflexivity|]. vm_compute. repeat split; reflexivity. Qed.
+
+(* REGRESSION (finding C09-COV-PIECEWISE-PARAM, fixed by f37045c): a parameter whose last assignment is a Piecewise is
+   never grouped (formerly TypeError in the implementation): the effect statement follows it. *)
+Definition pw_prog : list stmt :=
+  [Assign xTVCL (Sym xT);
+   Assign xTVCL (PwCons (CRel OLt (Sym xWGT) (Num 5)) (Mul (Sym xTVCL) (Num 2)) (PwCons CTrue (Sym xTVCL) PwNil))].
+Definition pw_args : cov_args :=
+  {| a_param := xTVCL; a_cov := xWGT; a_kind := DLin; a_cats := []; a_mc := 0; a_op := OpMul;
+     a_thetas := [(s_theta, xTH)]; a_effect := xCLWGT;
+     a_stats := [(s_mean, 210%positive, 3 # 2); (s_median, xWGTMED, 13 # 10); (s_std, 211%positive, 1 # 4)];
+     a_cov_possible := [xTVCL; xCLWGT] |}.
+Example cov_piecewise_param_fixed :
+  g_surgery doc_templates pw_args pw_prog = true /\
+  match add_covariate_effect doc_templates pw_args pw_prog with
+  | Some lm => skipn 3 lm = [Assign xCLWGT (Add (Num 1) (Mul (Sym xTH) (Add (Sym xWGT) (Neg (Sym xWGTMED)))));
+                             Assign xTVCL (Mul (Sym xTVCL) (Sym xCLWGT))]
+  | None => False
+  end.
+Proof. split; vm_compute; reflexivity. Qed.
+
+(* REGRESSION (finding C09-REMOVE-IIV-SINGLE-ARG, fixed by a9a6b2e): a statement EX = exp(ETA) (one-argument
+   expression; formerly AttributeError in the implementation) becomes EX = exp(0) = 1. *)
+Example remove_iiv_single_arg_fixed :
+  remove_iiv_expr rETA TopExp [] (Fn1 F_EXP (Sym rETA)) = Fn1 F_EXP (Num 0) /\
+  eval (env_of []) std_fi (remove_iiv_expr rETA TopExp [] (Fn1 F_EXP (Sym rETA))) = Some 1.
+Proof. split; vm_compute; reflexivity. Qed.
